@@ -1,5 +1,5 @@
 HARNESSES = {
-    'Registers': dict(split={'n': 6}),
+    'Registers': dict(split={'n': 6, 'prior': 2}),
     'Rejects': dict(split={'n': 12, 'dest': 3}),
     'Linear': dict(mode='X', validate=0),
     'Circular': dict(mode='X', validate=0),
@@ -7,7 +7,7 @@ HARNESSES = {
 }
 
 BOUNDS = {
-    'Registers': 'n in {0,1,2,3,57,58} stops (symbolic stop values for n <= 3), any prior CSEL/NSEL outside the stop range, symbolic matrix, every shape and spread',
+    'Registers': 'fresh Generator, or one that set a gradient of the same geometry before a Reset of the destination; n in {0,1,2,3,57,58} stops (symbolic stop values for n <= 3), any prior CSEL/NSEL outside the stop range, symbolic matrix, every shape and spread',
     'Rejects': 'n in {0,1,2,3,57,58,59,64,255,256,257,300}, every CSEL byte, recorder / Renderer (selector any byte) / Encoder',
     'Linear/Circular/Elliptical': 'exact-real reading, all non-degenerate real inputs',
 }
